@@ -67,21 +67,29 @@ class _randobj:
                 ro_i.srcinfo_inst = SourceInfo(frame.filename, frame.lineno)
     
                 # Initialize the field_info member before going deeper            
+                pushed_srcinfo_mode = False
                 if ro_i.ctor_level == 0:
                     self.tname = T.__qualname__
                     self._int_field_info = field_info()
                     
                     # Decide whether to record sourceinfo for this class
                     push_srcinfo_mode(srcinfo)
+                    pushed_srcinfo_mode = True
                     
                 # Call the user's constructor
-                ro_i.ctor_level += 1
-                super().__init__(*args, **kwargs)
-                ro_i.ctor_level -= 1
+                try:
+                    ro_i.ctor_level += 1
+                    super().__init__(*args, **kwargs)
+                    ro_i.ctor_level -= 1
                 
-                if ro_i.ctor_level == 0:
-                    self.build_field_model(None)
-                    pop_srcinfo_mode()
+                    if ro_i.ctor_level == 0:
+                        self.build_field_model(None)
+                        pop_srcinfo_mode()
+                except Exception as e:
+                    # Leave the shared construction state as we found it
+                    if pushed_srcinfo_mode:
+                        pop_srcinfo_mode()
+                    raise e
             
         # Add the interposer class
         ret = type(T.__name__, (randobj_interposer,), dict())
@@ -220,6 +228,8 @@ class _randobj:
                                         fo.c(self)
                                     except Exception as e:
                                         print("Exception while processing constraint: " + str(e))
+                                        pop_constraint_scope()
+                                        clear_exprs()
                                         raise e
                                     fo.set_model(pop_constraint_scope())
                                     model.add_constraint(fo.model)
@@ -233,6 +243,8 @@ class _randobj:
                                         fo.c(self)
                                     except Exception as e:
                                         print("Exception while processing constraint: " + str(e))
+                                        pop_constraint_scope()
+                                        clear_exprs()
                                         raise e
                                     fo.set_model(pop_constraint_scope())
                                     fo.model.is_dynamic = True
